@@ -71,19 +71,24 @@ pub fn seeds(ep: &str) -> Vec<Vec<u8>> {
     }
 }
 
-fn class_byte(cls: &str) -> u8 {
+fn class_bytes(cls: &str) -> Vec<u8> {
+    let one = |b: u8| vec![b];
     match cls {
-        "nul" => 0, "del" => 0x7f, "x80" => 0x80, "xc3" => 0xc3, "xff" => 0xff, "quote" => b'"', "backslash" => b'\\',
-        "lbracket" => b'[', "lbrace" => b'{', "rbracket" => b']', "rbrace" => b'}', "comma" => b',', "colon" => b':',
-        "minus" => b'-', "e" => b'e', "dot" => b'.', "cr" => b'\r', "lf" => b'\n', "space" => b' ', "percent" => b'%',
-        "equals" => b'=', "slash" => b'/', "digit9" => b'9', _ => b'a',
+        "nul" => one(0), "del" => one(0x7f), "x80" => one(0x80), "xc3" => one(0xc3), "xff" => one(0xff), "quote" => one(b'"'), "backslash" => one(b'\\'),
+        "lbracket" => one(b'['), "lbrace" => one(b'{'), "rbracket" => one(b']'), "rbrace" => one(b'}'), "comma" => one(b','), "colon" => one(b':'),
+        "minus" => one(b'-'), "e" => one(b'e'), "dot" => one(b'.'), "cr" => one(b'\r'), "lf" => one(b'\n'), "space" => one(b' '), "percent" => one(b'%'),
+        "equals" => one(b'='), "slash" => one(b'/'), "digit9" => one(b'9'),
+        // well-formed multi-byte characters (2, 3 and 4 bytes): these do reach the String-taking entry points
+        "utf8_2" => "\u{e9}".as_bytes().to_vec(), "utf8_3" => "\u{65e5}".as_bytes().to_vec(), "utf8_4" => "\u{1f600}".as_bytes().to_vec(),
+        _ => one(b'a'),
     }
 }
 
 /// apply one abstract mutation to a seed; "all" expands to one document per position
 pub fn mutants(seed: &[u8], m: &Value) -> Vec<Vec<u8>> {
     let op = m["op"].as_str().unwrap_or("identity");
-    let b = class_byte(m["cls"].as_str().unwrap_or("letter"));
+    let bs = class_bytes(m["cls"].as_str().unwrap_or("letter"));
+    let b = bs[0];
     let at = m["at"].as_u64().unwrap_or(0) as usize;
     let all = m["all"].as_bool().unwrap_or(false);
     let pos = |permille: usize| -> usize { if permille >= 1000 { seed.len() } else { seed.len() * permille / 100 } };
@@ -92,11 +97,18 @@ pub fn mutants(seed: &[u8], m: &Value) -> Vec<Vec<u8>> {
         match op {
             "truncate" => seed[..p].to_vec(),
             "flip" => {
-                let mut v = seed.to_vec();
-                if p < v.len() { v[p] = b } else { v.push(b) }
-                v
+                // replace the byte at p (for a multi-byte class: the whole character starting at or before p)
+                if p < seed.len() {
+                    let mut start = p;
+                    while start > 0 && (seed[start] & 0xC0) == 0x80 { start -= 1 }
+                    let mut end = p + 1;
+                    while end < seed.len() && (seed[end] & 0xC0) == 0x80 { end += 1 }
+                    if bs.len() == 1 { let mut v = seed.to_vec(); v[p] = b; v } else { [&seed[..start], &bs[..], &seed[end..]].concat() }
+                } else {
+                    [seed, &bs[..]].concat()
+                }
             }
-            "insert" => [&seed[..p], &[b][..], &seed[p..]].concat(),
+            "insert" => [&seed[..p], &bs[..], &seed[p..]].concat(),
             "delete" => if p < seed.len() { [&seed[..p], &seed[p + 1..]].concat() } else { seed.to_vec() },
             "duplicate_tail" => [seed, &seed[p..]].concat(),
             _ => seed.to_vec(),
